@@ -62,6 +62,7 @@ func main() {
 		{"phblock", []string{"none", "covers"}},
 		{"share", []string{"off", "on"}},
 		{"live", []string{"notlive", "live"}},
+		{"override", []string{"none", "same-family", "v4-in-v6-slot", "port-only"}},
 	}
 	if !thorough {
 		// quick: reduced alphabets on three dimensions (full product otherwise)
@@ -186,6 +187,17 @@ func main() {
 			s := pb.RegistrationSource(pb.RegistrationSource_value[v["source"]])
 			w.RegistrationSource = &s
 		}
+		ov4, ov6 := net.IP(nil), net.IP(nil)
+		switch v["override"] {
+		case "same-family":
+			ov4, ov6 = net.ParseIP("198.51.100.7").To4(), net.ParseIP("2001:db8:1::7")
+			w.RegistrationResponse = &pb.RegistrationResponse{Ipv4Addr: proto.Uint32(0xC6336407), Ipv6Addr: ov6, DstPort: proto.Uint32(8443)}
+		case "v4-in-v6-slot":
+			ov6 = net.ParseIP("198.51.100.7").To4()
+			w.RegistrationResponse = &pb.RegistrationResponse{Ipv6Addr: ov6, DstPort: proto.Uint32(8443)}
+		case "port-only":
+			w.RegistrationResponse = &pb.RegistrationResponse{DstPort: proto.Uint32(8443)}
+		}
 		msg, _ := proto.Marshal(w)
 		// ---- run
 		var regs []*lib.DecoyRegistration
@@ -203,7 +215,7 @@ func main() {
 			e.Violation("panic:"+site, m+" "+id, map[string]any{"case": id})
 			continue
 		}
-		// ---- reference predicate (from the statement)
+		// ---- reference predicate (from the statement), per half of the message
 		complete := v["payload"] == "present" && v["secret"] != "absent"
 		transportOK := v["transport"] == "min" || v["transport"] == "prefix"
 		genOK := v["gen"] == "known"
@@ -211,18 +223,41 @@ func main() {
 		regIsV4 := v["registrant"] == "v4" || v["registrant"] == "v4mapped"
 		want4 := (v["support"] == "v4" || v["support"] == "both") && v["st4"] == "on" && regIsV4
 		want6 := (v["support"] == "v6" || v["support"] == "both") && v["st6"] == "on"
-		phOK := v["phblock"] == "none"
-		base := complete && transportOK && genOK && covertOK && phOK
-		admit4 := base && want4 && (v["prescanned"] == "T" || v["live"] == "notlive")
-		admit6 := base && want6
-		// ---- observations
+		// family of the phantom each half ends up with (a registrar override may put an IPv4
+		// phantom into the IPv6 half): an IPv4 phantom needs an IPv4 registrant
+		half6IsV4 := ov6 != nil && ov6.To4() != nil
+		consistent := !(want6 && half6IsV4 && !regIsV4)
+		blocked4 := v["phblock"] == "covers" && ov4 == nil
+		blocked6 := v["phblock"] == "covers" && ov6 == nil
+		base := complete && transportOK && genOK && covertOK && consistent
+		probe4 := v["prescanned"] == "F"
+		probe6 := half6IsV4 && v["prescanned"] == "F"
+		admit4 := base && want4 && !blocked4 && (!probe4 || v["live"] == "notlive")
+		admit6 := base && want6 && !blocked6 && (!probe6 || v["live"] == "notlive")
+		phOK := !(want4 && blocked4) && !(want6 && blocked6)
+		// ---- observations: halves come back in order [v4 half, v6 half]
 		got4, got6 := false, false
-		for _, r := range regs {
+		var halves []string
+		if want4 {
+			halves = append(halves, "4")
+		}
+		if want6 {
+			halves = append(halves, "6")
+		}
+		for i, r := range regs {
 			if r == nil {
 				continue
 			}
 			if _, ok := rm.GetRegistrations(r.PhantomIp)[rm.VerifIdentifier(r)]; ok {
-				if r.PhantomIp.To4() != nil {
+				h := "?"
+				if i < len(halves) && len(regs) == len(halves) {
+					h = halves[i]
+				} else if r.PhantomIp.To4() != nil {
+					h = "4"
+				} else {
+					h = "6"
+				}
+				if h == "4" {
 					got4 = true
 				} else {
 					got6 = true
@@ -231,19 +266,23 @@ func main() {
 		}
 		cls := func(k string) string { return k }
 		if got4 && !admit4 {
-			why := whyNot(complete, transportOK, genOK, covertOK, phOK, want4, v, true)
+			why := whyNot(complete, transportOK, genOK, covertOK, !blocked4, want4, v, true)
+			if !consistent {
+				why = "family-inconsistent-with-registrant"
+			}
 			e.Violation(cls("admitted-but-inadmissible:v4:"+why), id, map[string]any{"case": id})
 		}
 		if got6 && !admit6 {
-			why := whyNot(complete, transportOK, genOK, covertOK, phOK, want6, v, false)
+			why := whyNot(complete, transportOK, genOK, covertOK, !blocked6, want6, v, probe6)
+			if !consistent {
+				why = "family-inconsistent-with-registrant"
+			}
 			e.Violation(cls("admitted-but-inadmissible:v6:"+why), id, map[string]any{"case": id})
 		}
 		if admit4 && !got4 {
 			e.Violation("admissible-but-not-admitted:v4", id, map[string]any{"case": id})
 		}
 		if admit6 && !got6 {
-			// reading (i): a dual-stack message is parsed all-or-nothing; the v6 half is only
-			// required when the v4 half (if one was due) could be built, which it always can here
 			e.Violation("admissible-but-not-admitted:v6", id, map[string]any{"case": id})
 		}
 		nNew, nUpd := 0, 0
@@ -269,11 +308,18 @@ func main() {
 		}
 		// probes: only for an IPv4 phantom that is not pre-scanned and whose message already passed
 		// validation and the covert policy (reading (ii)); never more than one
-		probeAllowed := complete && transportOK && genOK && covertOK && want4 && v["prescanned"] == "F" && (phOK || v["source"] == "Detector")
-		if len(tester.Calls) > 1 || (len(tester.Calls) == 1 && !probeAllowed) {
+		nProbeAllowed := 0
+		if base && want4 && probe4 && (!blocked4 || v["source"] == "Detector") {
+			nProbeAllowed++
+		}
+		if base && want6 && probe6 && (!blocked6 || v["source"] == "Detector") {
+			nProbeAllowed++
+		}
+		_ = phOK
+		if len(tester.Calls) > nProbeAllowed {
 			e.Violation("unrequired-probe", fmt.Sprintf("%s: probes %v", id, tester.Calls), map[string]any{"case": id})
 		}
-		if admit4 && v["prescanned"] == "F" && len(tester.Calls) != 1 {
+		if admit4 && probe4 && len(tester.Calls) < 1 {
 			e.Violation("missing-probe", id, map[string]any{"case": id})
 		}
 		for _, c := range tester.Calls {
@@ -284,10 +330,10 @@ func main() {
 		// shares
 		shareAllowed := v["source"] == "Detector" && v["share"] == "on" && complete && transportOK && genOK && covertOK
 		if len(shares) > 1 || (len(shares) == 1 && !shareAllowed) {
-			e.Violation("share-count", fmt.Sprintf("%s: %d shares", id, len(shares)), map[string]any{"case": id})
+			e.Violation(fmt.Sprintf("share-count:%d:override=%s:support=%s", len(shares), v["override"], v["support"]), fmt.Sprintf("%s: %d shares", id, len(shares)), map[string]any{"case": id})
 		}
 		if len(shares) == 1 {
-			if want4 && v["prescanned"] == "F" && v["live"] == "live" && !want6 {
+			if want4 && probe4 && v["live"] == "live" && !want6 {
 				e.Violation("shared-live-phantom", id, map[string]any{"case": id})
 			}
 			sw := &pb.C2SWrapper{}
